@@ -505,6 +505,20 @@ def run(c: checklib.Check):
            f"renaming of inode/device/mtime/size values: {n_exh} exhaustive + {len(ulines) - n_exh} random, "
            f"{nontrivial} with a non-empty diff")
 
+    # observation (not a law of C09 as written, see SnapshotDiff.tla): with ignore_device an entry that kept its inode
+    # NUMBER but changed both path and device id is reported as deleted + created, not as moved
+    def dev_blind_move_missed(ln):
+        if not ln["ig"] or any(len({e[1] for e in ln[k]}) != len(ln[k]) for k in ("ref", "snap")):
+            return False                      # the laws only speak about one path per inode number
+        moved = {tuple(m) for m in ln["d"]["fv"] + ln["d"]["dv"]}
+        return any(a[1] == b[1] and a[2] != b[2] and a[0] != b[0] and (a[0], b[0]) not in moved
+                   for a in ln["ref"] for b in ln["snap"])
+
+    n_obs = sum(1 for ln in origs if dev_blind_move_missed(ln))
+    c.cov["observation_ignore_device_move_reported_as_delete_create"] = n_obs
+    c.note(f"observation: {n_obs} distinct ignore_device=True lines where an inode number found under another path AND "
+           f"another device id is reported as deleted+created instead of moved (allowed by the permissive reading)")
+
     batch = 400
     traces = [ulines[a : a + batch] for a in range(0, len(ulines), batch)]
     chunk = max(1, len(traces) // c.jobs + 1)
@@ -513,13 +527,16 @@ def run(c: checklib.Check):
     c.add_trace_stats("SnapshotDiffTrace", len(traces), stats)
     c.cov["states"] += stats["distinct"]
     c.cov["transitions"] += stats["generated"]
-    nbad = 0
+    nbad = ndrift = 0
     for ti, (tr, v) in enumerate(zip(traces, verdicts)):
         if v["accepted"] and not v["viol"]:
             continue
         if v["furthest"] <= len(tr) and not v["viol"]:
             c.machinery_failure(f"trace batch {ti} was not consumed (line {v['furthest']}): {tr[v['furthest'] - 1]}")
         for code in sorted(v["viol"]):
+            if code < 0:
+                ndrift += -code         # Level I: lists differ from the transcription; never a verdict (DESIGN §3)
+                continue
             lno, rev, mask = code // 4096, bool(code & 2048), code & 2047
             ln = origs[ti * batch + lno - 1]
             if rev:
@@ -533,6 +550,8 @@ def run(c: checklib.Check):
                                 f"snap={ln['snap']} lists={ln['d']} reverse lists={ln['r']} exception={ln['exc']!r}",
                                 {"case": ln, "trace_spec": ["SnapshotDiffTrace", "SnapshotDiffTrace.cfg"]},
                                 signature=clause)
+    c.cov["drift_traces"] += ndrift
+    c.note(f"Level I: {ndrift} lines differ from the transcription SnapshotDiff!Diff (drift; 0 = the model describes the code)")
     c.note(f"SnapshotDiffTrace: {len(traces)} batches / {len(ulines)} lines validated in {stats['wall_s']}s, "
            f"{nbad} law failures (first 3 failing lines per batch are decoded)")
 
@@ -556,5 +575,48 @@ def run(c: checklib.Check):
     ]
 
 
+def replay(path):
+    """--replay: rebuild both snapshots of the recorded case through the fake file system, run the real diff again in
+    both directions and validate the fresh line."""
+    import json
+
+    d = json.load(open(path))
+    case = d.get("replay", {}).get("case")
+    if not case:
+        return None
+    ds = ds_module()
+    rnames = {v: k for k, v in NAMES.items()}
+
+    def tree_of(entries):
+        t = {}
+        for p, ino, dev, isdir, mt, sz in entries:
+            t[tuple(rnames[x] for x in p[len(ROOT):].split("/")[1:])] = (ino, dev, isdir, mt, sz)
+        return t
+
+    print(f"replay of {d.get('property')} clause={d.get('clause')}: {d.get('what')[:300]}")
+    snaps = []
+    for k in ("ref", "snap"):
+        fs = TreeFS(tree_of(case[k]))
+        snaps.append(ds.DirectorySnapshot(ROOT, recursive=True, stat=fs.stat, listdir=fs.listdir))
+    ig = case["ig"]
+    if case.get("via") == "sub":
+        dd, e1 = run_diff(lambda: snaps[1] - snaps[0])
+        rr, e2 = run_diff(lambda: snaps[0] - snaps[1])
+    else:
+        dd, e1 = run_diff(lambda: ds.DirectorySnapshotDiff(snaps[0], snaps[1], ignore_device=ig))
+        rr, e2 = run_diff(lambda: ds.DirectorySnapshotDiff(snaps[1], snaps[0], ignore_device=ig))
+    line = {"ref": readback(snaps[0]), "snap": readback(snaps[1]), "ig": ig, "d": dd, "r": rr, "exc": e1 or e2}
+    print("  ", json.dumps(line))
+    verdicts, _ = tlc.validate_traces("SnapshotDiffTrace", "SnapshotDiffTrace.cfg", [[line]], parallel=1, dfs_queue=False)
+    bad = sorted({MONITORS[k] for code in verdicts[0]["viol"] if code > 0 for k in range(len(MONITORS))
+                  if (code & 2047) & (1 << k)})
+    print("verdict:", "accepted" if not bad else f"violated: {bad}")
+    return 1 if bad else 0
+
+
 if __name__ == "__main__":
+    if "--replay" in sys.argv:
+        rc = replay(sys.argv[sys.argv.index("--replay") + 1])
+        if rc is not None:
+            sys.exit(rc)
     checklib.main_wrapper("C09", run)
